@@ -222,6 +222,36 @@ def borrowed_and_name_cases(ctx):
                                   key=key, value=repr(odd), error=show(o)[:100], changed=str(diff), observed=str({k: after.get(k) for k in diff})[:200],
                                   required=str({k: before.get(k) for k in diff})[:200])
                     return n
+    # receivers on READ-ONLY memory that has room for the appended samples (so no growth is attempted and the refusal comes from the copy
+    # itself, late): lists whose leading objects are empty but carry properties / timing, followed by a non-empty one
+    from nitypes.waveform import ComplexWaveform
+    for cls, key, dty in ((AnalogWaveform, "raw_data", np.float64), (ComplexWaveform, "raw_data", np.complex128), (Spectrum, "data", np.float64), (DigitalWaveform, "data", np.uint8)):
+        for spare in (0, 2, 8):
+            for lead in ((0,), (0, 0), (0, 1), (1, 0), ()):
+                for single in (False, True):
+                    buf = np.zeros((3 + spare, 1) if cls is DigitalWaveform else 3 + spare, dty)
+                    buf.setflags(write=False)
+                    recv = cls(**{key: buf, "sample_count": 3, "extended_properties": {"k": "v"}})
+                    def mk2(k, props):
+                        if cls is DigitalWaveform:
+                            return DigitalWaveform.from_lines(np.ones((k, 1), np.uint8), extended_properties=props)
+                        return cls.from_array_1d(np.ones(k, dty), dty, extended_properties=props)
+                    objs = [mk2(k, {f"lead{i}": "x", "NI_UnitDescription": "dBm", "NI_ChannelName": "c"}) for i, k in enumerate(lead)] + [mk2(2, {"tail": "t"})]
+                    arg = objs[-1] if single else objs
+                    before = observe(recv)
+                    o = outcome(lambda: recv.append(arg))
+                    after = observe(recv)
+                    n += 1
+                    ctx.case(("read-only-with-room", cls.__name__, spare, lead, single))
+                    if o[0] == "err" and after != before:
+                        diff = [k for k in set(before) | set(after) if before.get(k) != after.get(k)]
+                        ctx.violation(what="append to a read-only buffer with room was refused after the receiver had been changed", cls=cls.__name__, spare_capacity=spare,
+                                      argument=("one object" if single else f"list: empty objects carrying properties x{len(lead)} (sizes {lead}), then 2 samples"), error=show(o)[:100],
+                                      changed=str(diff), observed=str({k: after.get(k) for k in diff})[:200], required=str({k: before.get(k) for k in diff})[:200])
+                        return n
+                    if o[0] == "ok" and not (cls is not None and sum(lead) + 2 == 0):
+                        ctx.violation(what="append wrote into read-only memory", cls=cls.__name__, spare_capacity=spare, observed=show(o)[:80], required="a refusal")
+                        return n
     # signal names: a value that is not a str is refused and changes nothing
     for nsig in (1, 3):
         for prior in (None, "a, b, c", " x ,y"):
